@@ -1069,6 +1069,40 @@ func (g *PG) closureLoop() []Val {
 	return []Val{def, use}
 }
 
+// threadRecursion builds a function that recurses THROUGH a thread-first /
+// thread-last form whose sub-forms have 1-7 cells: the rewritten sub-form of an
+// outer activation must not be disturbed by the inner activations.
+func (g *PG) threadRecursion() []Val {
+	g.stat("recursion-through-thread-form")
+	name := g.Prefix + "thr"
+	op := rapid.SampledFrom([]string{"thread-last", "thread-first"}).Draw(g.t, "threadop")
+	pad := func(n int) []Val {
+		out := make([]Val, n)
+		for i := range out {
+			out[i] = I(0)
+		}
+		return out
+	}
+	var body Val
+	k := g.n(0, 5, "padding")
+	if op == "thread-last" && g.pct(60, "recursion-inside-rewritten-form") {
+		// (thread-last n (identity) (+ (NAME (- n 1)) 0...)) : the recursive call
+		// is an ARGUMENT of the very sub-form the value is threaded into
+		body = L(S(op), S("n"), L(S("identity")), L(append([]Val{S("+"), L(S(name), L(S("-"), S("n"), I(1)))}, pad(k)...)...))
+	} else if op == "thread-last" {
+		// (thread-last (- n 1) (NAME) (+ n 0...)) : n + NAME(n-1)
+		body = L(S(op), L(S("-"), S("n"), I(1)), L(S(name)), L(append([]Val{S("+"), S("n")}, pad(k)...)...))
+	} else {
+		// (thread-first n (+ 0... (NAME (- n 1)))) : n + NAME(n-1)
+		body = L(S(op), S("n"), L(append(append([]Val{S("+")}, pad(k)...), L(S(name), L(S("-"), S("n"), I(1))))...))
+	}
+	if g.pct(50, "three-forms") {
+		body.L = append(body.L, L(append([]Val{S("list")}, pad(g.n(0, 4, "pad2"))...)...))
+	}
+	def := L(S("defun"), S(name), L(S("n")), L(S("if"), L(S("<="), S("n"), I(0)), I(0), body))
+	return []Val{def, g.probe(L(S(name), I(int64(g.n(1, 5, "depth")))))}
+}
+
 func (g *PG) TopForm(depth int) Val {
 	switch g.n(0, 9, "top") {
 	case 0, 1, 2:
@@ -1142,6 +1176,10 @@ func GenProgramWith(o ProgOpts) *rapid.Generator[Program] {
 				forms = append(forms, g.closureLoop()...)
 				continue
 			}
+			if g.pct(4, "thread-recursion") {
+				forms = append(forms, g.threadRecursion()...)
+				continue
+			}
 			forms = append(forms, g.TopForm(o.Depth))
 		}
 		return Program{Forms: forms, Stats: g.Stats}
@@ -1157,6 +1195,10 @@ func genProgram(maxForms, budget, depth int, extra bool) *rapid.Generator[Progra
 		for i := 0; i < n; i++ {
 			if g.pct(6, "closure-loop") {
 				forms = append(forms, g.closureLoop()...)
+				continue
+			}
+			if g.pct(4, "thread-recursion") {
+				forms = append(forms, g.threadRecursion()...)
 				continue
 			}
 			forms = append(forms, g.TopForm(depth))
